@@ -559,15 +559,21 @@ package policy
 //@     invariant [C09,C01] attestationSwitch: currentAttestations != attBefore ==> currentAttestations != nil && notNil(head) && attsEntry(currentAttestations) == head.GetID()
 //@     invariant [C01] onlyRecoveryEndsRecovery: notNil(wasInvalid) ==> isNil(invalidEntry) && isNil(head)
 //@   loop 2:
-//@     ghost e0 []rsl.ReferenceUpdaterEntry = entries step e0
+//@     # values at the start of the iteration being completed: the entry taken from the head of the queue and the
+//@     # lengths of the two lists the step may extend
+//@     ghost hd rsl.ReferenceUpdaterEntry = nil step entries[0]
+//@     ghost nq int = len(newEntryQueue) step len(newEntryQueue)
+//@     ghost ni int = len(invalidIntermediateEntries) step len(invalidIntermediateEntries)
 //@     invariant shape: notNil(invalidEntry) && typeIs(invalidEntry, *rsl.ReferenceEntry) && !fixed && (forall i :: 0 <= i && i < len(entries) ==> notNil(entries[i]) && isUpdater(entries[i])) && (forall i :: 0 <= i && i < len(newEntryQueue) ==> notNil(newEntryQueue[i]) && isUpdater(newEntryQueue[i])) && (forall k string :: has(annotations, k) ==> noNil(annotations[k])) && (currentPolicy != nil ==> stateUsable(currentPolicy)) && (forall i :: 0 <= i && i < len(invalidIntermediateEntries) ==> invalidIntermediateEntries[i] != nil)
 //@     invariant [C08] refsKept: forall r string :: refTip[r] == old(refTip[r]) && refSet[r] == old(refSet[r])
-//@     invariant remaining: smt("(and (= (slc_arr %1) (slc_arr %2)) (= (+ (slc_off %1) (slc_len %1)) (+ (slc_off %2) (slc_len %2))) (>= (slc_off %1) (slc_off %2)))", bool, entries, e0)
-//@     # C07: every entry for the affected reference passed over while looking for the repair is marked skipped, or is
-//@     # remembered as an unrevoked intermediate (which makes verification fail)
-//@     invariant [C07] passedOverAreRevoked: forall i :: 0 <= i && i < len(e0) - len(entries) && typeIs(e0[i], *rsl.ReferenceEntry) && as(e0[i], *rsl.ReferenceEntry).RefName == invalidEntry.GetRefName() ==> skippedBy(as(e0[i], *rsl.ReferenceEntry), annsOf(annotations, as(e0[i], *rsl.ReferenceEntry))) || (exists q :: 0 <= q && q < len(invalidIntermediateEntries) && invalidIntermediateEntries[q] == as(e0[i], *rsl.ReferenceEntry))
-//@     # C07: entries for other references (and propagation entries) met on the way are kept for processing afterwards
-//@     invariant [C07] othersKept: forall i :: 0 <= i && i < len(e0) - len(entries) && (e0[i].GetRefName() != invalidEntry.GetRefName() || typeIs(e0[i], *rsl.PropagationEntry)) ==> (exists q :: 0 <= q && q < len(newEntryQueue) && newEntryQueue[q] == e0[i])
+//@     # C07: an entry for the affected reference that is passed over while looking for the repair is marked skipped,
+//@     # or is remembered as an unrevoked intermediate (which makes verification fail)
+//@     invariant [C07] passedOverIsRevokedOrRemembered: notNil(hd) && typeIs(hd, *rsl.ReferenceEntry) && as(hd, *rsl.ReferenceEntry).RefName == invalidEntry.GetRefName() ==> skippedBy(as(hd, *rsl.ReferenceEntry), annsOf(annotations, as(hd, *rsl.ReferenceEntry))) || (len(invalidIntermediateEntries) == ni + 1 && invalidIntermediateEntries[len(invalidIntermediateEntries) - 1] == as(hd, *rsl.ReferenceEntry))
+//@     # C07: an entry for another reference (or a propagation entry) met on the way is appended to the queue that is
+//@     # processed afterwards
+//@     invariant [C07] otherIsKept: notNil(hd) && (hd.GetRefName() != invalidEntry.GetRefName() || typeIs(hd, *rsl.PropagationEntry)) ==> len(newEntryQueue) == nq + 1 && newEntryQueue[len(newEntryQueue) - 1] == hd
+//@     invariant [C07] nothingElseQueued: notNil(hd) && !(hd.GetRefName() != invalidEntry.GetRefName() || typeIs(hd, *rsl.PropagationEntry)) ==> len(newEntryQueue) == nq
+
 //@ func ext:pkg/rsl.GetFirstReferenceUpdaterEntryForRef -> (e, anns, err)
 //@   trusted
 //@   assigns ghost faults
